@@ -41,6 +41,12 @@ def gen(rng, tier):
     lay['use_rf'] = rng.random() < 0.3
     lay['use_hf'] = rng.random() < 0.3
     lay['srun_version'] = rng.choice(['17.11', '22.05'])
+    if lm == 'IBRUN' and rng.random() < 0.6:
+        # IBRUN with the documented `tasks_per_node` option: one host list
+        # entry per core; single-threaded ranks
+        lay['ibrun_tpn'] = lay['cpn']
+        for t in sc['tasks']:
+            t['descr']['cores_per_rank'] = 1
     if rng.random() < 0.15:
         # many small nodes: host list vs. host file thresholds (> 42 hosts)
         lay['nodes'] = rng.randint(44, 50)
@@ -170,7 +176,19 @@ def parse(name, cmd, files):
             out['node_set'] = set(nl.split(','))
         elif nf:
             out['node_set'] = set((files.get(nf) or '').strip().split(','))
-    elif n in ('APRUN', 'IBRUN', 'CCMRUN'):
+    elif n == 'IBRUN':
+        # `ibrun -n N -o O`: the host list names every node of the allocation
+        # IBRUN_TASKS_PER_NODE times (allocation order); the N processes go
+        # to entries O .. O+N-1 of that list
+        out['nprocs'] = int(opt('-n'))
+        m = re.search(r'IBRUN_TASKS_PER_NODE=(\d+)', cmd)
+        alloc = files.get('__nodes__')
+        if m and alloc and opt('-o') is not None:
+            tpn, off = int(m.group(1)), int(opt('-o'))
+            hostlist = [name_ for name_ in alloc for _ in range(tpn)]
+            out['nodes'] = hostlist[off:off + out['nprocs']]
+            out['tpn']   = tpn
+    elif n in ('APRUN', 'CCMRUN'):
         out['nprocs'] = int(opt('-n'))
     elif n in ('SSH', 'RSH'):
         out['nprocs'] = 1
@@ -213,6 +231,9 @@ def install_spy(sim, st):
                     rec['files'][f] = _read(f)
                 rec['files']['__hostname__'] = sim.data.get('hostname',
                                                             'localhost')
+                rec['files']['__nodes__'] = [
+                    nd['name'] for nd in _lm._rm_info.node_list]
+                rec['cpn'] = _lm._rm_info.get('cores_per_node')
             except K.SimKilled:
                 raise
             except BaseException as e:                             # noqa
@@ -254,6 +275,21 @@ def oracle(sim, sc, st):
             continue
         det['parsed'] = {k: (sorted(v) if isinstance(v, set) else v)
                          for k, v in p.items() if k != 'pins'}
+        if rec['lm'].upper() == 'IBRUN' and p.get('tpn'):
+            # what ibrun cannot express is told apart by the *input*: the
+            # host list geometry (entries per node vs. rank slots per node),
+            # and placements which are not one contiguous run of rank slots
+            cpr = rec['cores_per_rank'] or 1
+            alloc = rec['files']['__nodes__']
+            pos = sorted(alloc.index(s['node_name']) * p['tpn'] +
+                         min(c for c, _ in s['cores']) // cpr
+                         for s in slots if s['node_name'] in alloc)
+            if p['tpn'] * cpr != rec.get('cpn') or any(
+                    min(c for c, _ in s['cores']) // cpr >= p['tpn']
+                    for s in slots):
+                site = 'IBRUN:tasks_per_node_geometry'
+            elif pos != list(range(pos[0], pos[0] + len(pos))):
+                site = 'IBRUN:non_contiguous'
         if p['nprocs'] is not None and p['nprocs'] != rec['ranks']:
             sim.violation(PROP, 'nprocs', site, det)
         if p['nodes'] is not None:
